@@ -55,9 +55,9 @@ Print Assumptions C19_tx_unrepaired_refuted.
     the single envelope (announcing the exact octet count) and concatenates to the chunk data
     with CRLF -> LF, every other octet kept; what follows the data on the wire is left unread. *)
 Theorem C19_rx_content : forall cfg cmds stream cuts,
-  cfg_clean cfg -> one_transaction cmds ->
+  cfg_clean cfg -> c_wfail cfg = None -> one_transaction cmds ->
   total cmds <= length stream -> total cmds <= c_maxbytes cfg ->
-  exists s evs, rx_session cfg cmds stream cuts None = Ok (false, s, evs)
+  exists s evs, rx_session cfg false cmds stream cuts None = Ok (false, s, evs)
     /\ rx_delivered (firstn (total cmds) stream) evs
     /\ avail (r_net s) = skipn (total cmds) stream.
 Proof. exact rx_transaction_ok. Qed.
@@ -67,8 +67,8 @@ Print Assumptions C19_rx_content.
     queue write failing, a read error, the peer hanging up, the size limit): no out-of-range
     access, and once a command has returned an error no envelope is ever sent to the queue:
     a failure in one chunk fails the whole transaction. *)
-Theorem C19_rx_fail : forall cfg cmds stream cuts rfail, cfg_ok cfg ->
-  exists died s evs, rx_session cfg cmds stream cuts rfail = Ok (died, s, evs)
+Theorem C19_rx_fail : forall cfg qf cmds stream cuts rfail, cfg_ok cfg ->
+  exists died s evs, rx_session cfg qf cmds stream cuts rfail = Ok (died, s, evs)
     /\ no_env_after_fail false evs = true.
 Proof. exact rx_session_fail_final. Qed.
 Print Assumptions C19_rx_fail.
@@ -76,8 +76,8 @@ Print Assumptions C19_rx_fail.
 (** F-C19-2: the model of the unrepaired smtp_bdat loses a CR at the very end of the data when the
     LAST chunk is empty ("BDAT 2" a CR, "BDAT 0 LAST" queues only a). *)
 Theorem C19_rx_unrepaired_refuted :
-  let cfg := mk_cfg false None 100 1024 false in
-  exists s evs, rx_session cfg [(2, false, 0); (0, true, 0)] [97; 13]%N [] None = Ok (false, s, evs)
+  let cfg := mk_cfg None 100 1024 false in
+  exists s evs, rx_session cfg false [(2, false, 0); (0, true, 0)] [97; 13]%N [] None = Ok (false, s, evs)
     /\ ~ rx_delivered [97; 13]%N evs.
 Proof. exact rx_unrepaired_refuted. Qed.
 Print Assumptions C19_rx_unrepaired_refuted.
@@ -98,10 +98,10 @@ Example C19_nonvacuous :
   (let msg := [97; 13; 10; 98; 10; 10; 99; 13]%N in
    exists ws wn, send_bdat 17 msg None = Ok (ws, TxDone, wn) /\ length ws = 4
      /\ tx_norm msg [97; 13; 10; 98; 13; 10; 13; 10; 99; 13; 10]%N)
-  /\ (let cfg := mk_cfg false None 100 4 RX_CR_AFTER_LOOP in
+  /\ (let cfg := mk_cfg None 100 4 RX_CR_AFTER_LOOP in
       let cmds := [(2, false, 1); (3, false, 0); (0, true, 0)] in
       cfg_clean cfg /\ one_transaction cmds
-      /\ exists s evs, rx_session cfg cmds [97; 13; 10; 98; 13]%N [1; 1; 1] None = Ok (false, s, evs)
+      /\ exists s evs, rx_session cfg false cmds [97; 13; 10; 98; 13]%N [1; 1; 1] None = Ok (false, s, evs)
            /\ queued evs = [97; 10; 98; 13]%N).
 Proof.
   split.
